@@ -93,6 +93,7 @@ void vk_hit(int clause)
 void vk_violation(const char *prop, const char *clause, const char *key, const char *fmt, ...)
 {
   char msg[600];
+  if (vk_cfg.passthru) return; /* free runs only produce observations to compare; their oracles lack the bookkeeping of stepped runs */
   va_list ap;
   va_start(ap, fmt);
   vsnprintf(msg, sizeof msg, fmt, ap);
@@ -203,11 +204,21 @@ int vk_choose(int kind, int n, int cost, const char *label)
 
 int64_t vk_now(void)
 {
+  if (vk_cfg.passthru) {
+    struct timespec ts;
+    clock_gettime(CLOCK_REALTIME, &ts);
+    return (int64_t) ts.tv_sec * 1000 + ts.tv_nsec / 1000000;
+  }
   return S->clock_ms;
 }
 
 void vk_advance(int ms)
 {
+  if (vk_cfg.passthru) {
+    struct timespec ts = { ms / 1000, (long) (ms % 1000) * 1000000 };
+    nanosleep(&ts, NULL);
+    return;
+  }
   S->clock_ms += ms;
 }
 
@@ -674,6 +685,23 @@ static void child_next_message(struct vk_child *c)
          c->hello.nfd);
   /* setup steps run at once */
   while (c->pos < c->nsetup && c->state == CH_RUNNING) vk_child_step(c);
+  if (vk_cfg.passthru && c->state == CH_RUNNING) {
+    /* free-running validation: the helper gets the rest of its script and runs it by itself, one step every gap ms */
+    int n = c->nsteps - c->pos;
+    struct vc_cmd hdr = { 'A', vk_autonomous_gap_ms, n };
+    xsend(c->ctl, &hdr, sizeof hdr);
+    for (int i = c->pos; i < c->nsteps; i++) {
+      struct vc_cmd st = { c->steps[i].op, c->steps[i].a, c->steps[i].b };
+      xsend(c->ctl, &st, sizeof st);
+      if (st.op == 'X') c->expect_status = st.a & 0xff;
+      if (st.op == 'K' || st.op == 'T') c->expect_status = 128 + st.a;
+      if (st.op == 'C' && st.a >= 0 && st.a < 3) c->closed_fd[st.a] = 1; /* will be closed; only used after the fact */
+    }
+    struct vc_rep ack;
+    if (!xrecv(c->ctl, &ack, sizeof ack)) infra("helper did not take its script");
+    c->autonomous = 1;
+    c->pos = c->nsteps;
+  }
 }
 
 static int default_action_terminates(int sig)
@@ -686,8 +714,13 @@ static int default_action_terminates(int sig)
   return 1;
 }
 
+int vk_autonomous_gap_ms = 120;
+static int deliver_signal(struct vk_child *c, int sig);
+
 int vk_child_enabled(struct vk_child *c)
 {
+  if (c->autonomous) return 0;
+  if (c->pending_sig && c->state == CH_RUNNING) return 1;
   if (c->state == CH_LIBPEND) return 1;
   if (c->state != CH_RUNNING) return 0;
   if (c->pos >= c->nsteps) return 0;
@@ -729,8 +762,41 @@ static void note_write(struct vk_child *c, int fd, uint32_t n)
   }
 }
 
+void vk_autonomous_collect(struct vk_child *c)
+{
+  if (!c->autonomous) return;
+  for (;;) {
+    struct vc_rep r;
+    if (!xrecv(c->ctl, &r, sizeof r)) break; /* ended without a report (killed by a signal of the library) */
+    if (r.st == ST_SIG) { c->handled[r.n]++; continue; }
+    if (r.st != ST_DATA || r.n < 16) break;
+    uint32_t hdr[4];
+    if (!xrecv(c->ctl, hdr, sizeof hdr)) break;
+    c->wrote[1] = hdr[0];
+    c->wrote[2] = hdr[1];
+    c->in_eof = (int) hdr[2];
+    c->echoed = hdr[3];
+    size_t n = (size_t) r.n - 16;
+    char *d = malloc(n + 1);
+    if (n && !xrecv(c->ctl, d, n)) { free(d); break; }
+    c->in_n = 0;
+    child_in_append(c, d, n);
+    free(d);
+    break;
+  }
+  c->autonomous = 2;
+}
+
 int vk_child_step(struct vk_child *c)
 {
+  if (c->autonomous) return 0;
+  if (c->pending_sig && c->state == CH_RUNNING) {
+    int sig = c->pending_sig;
+    c->pending_sig = 0;
+    vk_log("  [child %d] the signal %d sent earlier takes effect now", c->idx, sig);
+    deliver_signal(c, sig);
+    return 1;
+  }
   if (c->state == CH_LIBPEND) {
     struct vc_cmd go = { 'G', 0, 0 };
     c->state = CH_LIBRUN;
@@ -1050,6 +1116,12 @@ void vk_exec_init(void)
   api_counter = 0;
   vk_api_seq = 0;
   vk_side = 0;
+  if (S->force_passthru) {
+    vk_cfg.passthru = 1;
+    vk_cfg.sched_on = 0;
+    vk_cfg.faults_on = 0;
+    vk_cfg.time_on = 0;
+  }
   if (!vk_cfg.elapsed_inf_n) {
     vk_cfg.elapsed_inf_n = 1;
     vk_cfg.elapsed_inf[0] = 0;
@@ -1699,6 +1771,32 @@ pid_t vk_waitpid(pid_t pid, int *status, int options)
   return r;
 }
 
+static int deliver_signal(struct vk_child *c, int sig)
+{
+  int r = kill(c->pid, sig);
+  int er = errno;
+  if (r == 0 && vk_cfg.passthru && c->state == CH_RUNNING && (sig == SIGKILL || (c->disp[sig] == 'D' && default_action_terminates(sig))) && c->expect_status < 0)
+    c->expect_status = 128 + sig;
+  if (r == 0 && !vk_cfg.passthru && sig > 0 && sig < 65 && (c->state == CH_RUNNING || c->state == CH_LIBPEND)) {
+    int blocked_in_child = c->have_hello && sig != SIGKILL && sig != SIGSTOP && ((c->hello.blk >> sig) & 1);
+    char d = sig == SIGKILL ? 'D' : c->disp[sig];
+    if (c->state == CH_LIBPEND) d = 'D', blocked_in_child = 0;
+    if (blocked_in_child) {
+      /* stays pending */
+    } else if (d == 'D' && default_action_terminates(sig)) {
+      c->expect_status = 128 + sig;
+      c->ended_by = sig;
+      wait_zombie(c);
+    } else if (d == 'H') {
+      struct vc_rep rep;
+      if (!xrecv(c->ctl, &rep, sizeof rep) || rep.st != ST_SIG) infra("expected signal notification from child %d", c->idx);
+      c->handled[rep.n]++;
+    }
+  }
+  errno = er;
+  return r;
+}
+
 int vk_kill(pid_t pid, int sig)
 {
   if (vk_side != 0) return kill(pid, sig);
@@ -1728,24 +1826,18 @@ int vk_kill(pid_t pid, int sig)
     c->sigs[c->nsigs].child_state = c->state;
     c->nsigs++;
   }
-  int r = kill(pid, sig);
-  int er = errno;
-  if (r == 0 && !vk_cfg.passthru && sig > 0 && sig < 65 && (c->state == CH_RUNNING || c->state == CH_LIBPEND)) {
-    int blocked_in_child = c->have_hello && sig != SIGKILL && sig != SIGSTOP && ((c->hello.blk >> sig) & 1);
-    char d = sig == SIGKILL ? 'D' : c->disp[sig];
-    if (c->state == CH_LIBPEND) d = 'D', blocked_in_child = 0;
-    if (blocked_in_child) {
-      /* stays pending */
-    } else if (d == 'D' && default_action_terminates(sig)) {
-      c->expect_status = 128 + sig;
-      c->ended_by = sig;
-      wait_zombie(c);
-    } else if (d == 'H') {
-      struct vc_rep rep;
-      if (!xrecv(c->ctl, &rep, sizeof rep) || rep.st != ST_SIG) infra("expected signal notification from child %d", c->idx);
-      c->handled[rep.n]++;
-    }
+  /* Signal delivery is asynchronous: kill() returning 0 says nothing about when the child is affected. By default the
+   * effect happens at once; as a scheduling deviation it is deferred and becomes the child's next step (only for a
+   * running, scripted child and for one signal at a time). */
+  if (!vk_cfg.passthru && vk_cfg.sched_on && c->state == CH_RUNNING && !c->pending_sig && sig > 0 && sig < 65 && budget_left(K_SCHED, vk_cfg.sched_bound) &&
+      vk_choose(K_SCHED, 2, 1, "sig-later")) {
+    c->pending_sig = sig;
+    vk_log("    (signal %d to child %d takes effect later)", sig, c->idx);
+    ev_done(e, 0, 0);
+    return 0;
   }
+  int r = deliver_signal(c, sig);
+  int er = errno;
   ev_done(e, r, er);
   errno = er;
   return r;
